@@ -236,14 +236,17 @@ fn macro_expand(
         bail!("call undefined macro {} on {}", macro_name, line);
     }
 
-    let segments = segments
-        .borrow()
-        .iter()
-        .filter(|x| !x.borrow().is_empty())
-        .map(|x| x.borrow().clone())
-        .collect();
+    let segments = segments.borrow();
+    let mut expanded: Vec<Segment> = vec![];
+    for (i, segment) in segments.iter().enumerate() {
+        // a segment directive at the end of the body opens an empty segment: it is what the lines after the call go to
+        let closes_body = i + 1 == segments.len() && !expanded.is_empty();
+        if !segment.borrow().is_empty() || closes_body {
+            expanded.push(segment.borrow().clone());
+        }
+    }
 
-    Ok(segments)
+    Ok(expanded)
 }
 
 #[cfg(test)]
